@@ -138,6 +138,27 @@ theorem dumps_le_max (maxCount : Nat) (dumps : List Nat) (ids : List Nat) (hm : 
       | cons j l ih => intro d _; exact ih _ (step d j)
     exact this rest _ (step dumps i)
 
+/-- **C19(e), at every moment** a directory within its limit stays within it through every intermediate listing of a
+`write_all` (what a concurrent reader, or a crash between two of its file operations, finds); one that starts above the
+limit (the setting was lowered) never grows -/
+theorem dump_peak_le_max (maxCount : Nat) (dumps : List Nat) (newId : Nat) (hm : 1 ≤ maxCount) :
+    ∀ l ∈ dumpTrace maxCount dumps newId, l.length ≤ max dumps.length maxCount := by
+  intro l hl
+  simp only [dumpTrace, List.mem_append, List.mem_map, List.mem_range, List.mem_singleton] at hl
+  rcases hl with ⟨j, _, rfl⟩ | rfl
+  · simp only [List.length_drop]; omega
+  · have := prune_length_lt maxCount dumps hm
+    simp only [List.length_append, List.length_singleton]; omega
+
+/-- the last listing of the trace is what `writeDump` leaves -/
+theorem dumpTrace_ends_in_writeDump (maxCount : Nat) (dumps : List Nat) (newId : Nat) :
+    (dumpTrace maxCount dumps newId).getLast? = some (writeDump maxCount dumps newId) := by
+  simp [dumpTrace, writeDump]
+
+/-- negative witness: writing the new dump first and pruning afterwards passes through one dump too many -/
+theorem write_then_prune_exceeds : ([1, 2] ++ [3] : List Nat).length > 2 ∧
+    ∀ l ∈ dumpTrace 2 [1, 2] 3, l.length ≤ 2 := by decide
+
 theorem dump_removes_oldest (maxCount : Nat) (dumps : List Nat) (newId : Nat) (hm : 1 ≤ maxCount) :
     ∃ k, writeDump maxCount dumps newId = dumps.drop k ++ [newId] := by
   obtain ⟨k, hk⟩ := oldest_removed_first maxCount dumps hm
